@@ -33,7 +33,7 @@ var c11 = core.Register(&core.Prop{
 	Shards: func(tier string) int { return pickTier(tier, 8, 16) },
 	Floors: func(c map[string]int64, tier string) []string {
 		var out []string
-		for _, k := range []string{"calls_expected", "rejects_expected", "variadic_sigs", "spread_calls", "spread_rejects", "context_sigs", "returned_errors", "returned_numbers", "order_checked", "builtin_calls", "reject:count", "reject:conversion"} {
+		for _, k := range []string{"calls_expected", "rejects_expected", "variadic_sigs", "spread_calls", "spread_rejects", "context_sigs", "returned_errors", "returned_numbers", "order_checked", "builtin_calls", "reject:count", "reject:conversion", "shared_tree_pairs"} {
 			if c[k] == 0 {
 				out = append(out, "coverage floor: no "+k)
 			}
@@ -69,7 +69,7 @@ type BridgeCase struct {
 	Spread bool      `json:"spread,omitempty"`
 }
 
-var paramKinds = []string{"string", "bool", "int", "int8", "int16", "int32", "int64", "float32", "float64", "any", "dec", "time", "strs", "ints", "f64s", "anys", "mapany", "mapint"}
+var paramKinds = []string{"string", "bool", "int", "int8", "int16", "int32", "int64", "float32", "float64", "any", "dec", "time", "strs", "ints", "f64s", "anys", "mapany", "mapint", "i32s", "bytes", "i32ss"}
 
 var errorType = reflect.TypeOf((*error)(nil)).Elem()
 var ctxType = reflect.TypeOf((*context.Context)(nil)).Elem()
@@ -80,9 +80,10 @@ var kindType = map[string]reflect.Type{
 	"any": reflect.TypeOf((*interface{})(nil)).Elem(), "dec": reflect.TypeOf((*decimal.Big)(nil)), "time": reflect.TypeOf(time.Time{}),
 	"strs": reflect.TypeOf([]string(nil)), "ints": reflect.TypeOf([]int(nil)), "f64s": reflect.TypeOf([]float64(nil)), "anys": reflect.TypeOf([]interface{}(nil)),
 	"mapany": reflect.TypeOf(map[string]interface{}(nil)), "mapint": reflect.TypeOf(map[string]int(nil)),
+	"i32s": reflect.TypeOf([]int32(nil)), "bytes": reflect.TypeOf([]uint8(nil)), "i32ss": reflect.TypeOf([][]int32(nil)),
 }
 
-var elemKind = map[string]string{"strs": "string", "ints": "int", "f64s": "float64", "anys": "any"}
+var elemKind = map[string]string{"strs": "string", "ints": "int", "f64s": "float64", "anys": "any", "i32s": "int32", "i32ss": "i32s"}
 
 type ctxKey struct{}
 
@@ -190,7 +191,12 @@ func convModel(arg ArgSpec, kind string) (expect, string) {
 			return expect{}, "reject"
 		}
 		return expect{Kind: "time"}, "ok"
-	case "strs", "ints", "f64s", "anys":
+	case "bytes":
+		if arg.K != "arr" {
+			return expect{}, "reject" // a string is not an array either
+		}
+		return expect{}, "unspec" // unsigned element kinds are outside the statement
+	case "strs", "ints", "f64s", "anys", "i32s", "i32ss":
 		if arg.K != "arr" {
 			return expect{}, "reject"
 		}
@@ -401,7 +407,44 @@ func buildSig(s SigSpec, log *[]invocation) interface{} {
 
 var retValues = map[string]string{"int": "42", "int32": "-7", "int64": "1099511627776", "float32": "1.5", "float64": "0.1"}
 
-var c11Bridge = core.Mon(c11, "bridge", func(w *core.W, c *BridgeCase) {
+var c11Bridge = core.Mon(c11, "bridge", func(w *core.W, c *BridgeCase) { runBridge(w, "bridge", c, nil) })
+
+// SharedTreeCase: one parsed call site evaluated against two data maps in which hostfn has different signatures.
+type SharedTreeCase struct {
+	SigA   SigSpec   `json:"sig_a"`
+	SigB   SigSpec   `json:"sig_b"`
+	Args   []ArgSpec `json:"args"`
+	Spread bool      `json:"spread,omitempty"`
+}
+
+var c11Shared = core.Mon(c11, "shared-call-site", func(w *core.W, c *SharedTreeCase) {
+	first := &BridgeCase{Sig: c.SigA, Args: c.Args, Spread: c.Spread}
+	sc, err := formula.ParseSourceCode([]byte(first.source()))
+	if err != nil {
+		w.Skip("unparsable-call-shape")
+		return
+	}
+	w.Count("shared_tree_pairs")
+	before := w.NViol()
+	runBridge(w, "shared-call-site", first, sc)
+	if w.NViol() == before {
+		runBridge(w, "shared-call-site", &BridgeCase{Sig: c.SigB, Args: c.Args, Spread: c.Spread}, sc)
+	}
+})
+
+func (c *BridgeCase) source() string {
+	var parts []string
+	for i, a := range c.Args {
+		parts = append(parts, fmt.Sprintf("t(%d, %s)", i, a.src()))
+	}
+	src := "hostfn(" + strings.Join(parts, ", ")
+	if c.Spread {
+		src += "..."
+	}
+	return src + ")"
+}
+
+func runBridge(w *core.W, mon string, c *BridgeCase, sc *formula.SourceCode) {
 	var log []invocation
 	var order []int64
 	token := new(int)
@@ -415,19 +458,14 @@ var c11Bridge = core.Mon(c11, "bridge", func(w *core.W, c *BridgeCase) {
 			return v, nil
 		},
 	}
-	var parts []string
-	for i, a := range c.Args {
-		parts = append(parts, fmt.Sprintf("t(%d, %s)", i, a.src()))
-	}
-	src := "hostfn(" + strings.Join(parts, ", ")
-	if c.Spread {
-		src += "..."
-	}
-	src += ")"
-	sc, err := formula.ParseSourceCode([]byte(src))
-	if err != nil {
-		w.Skip("unparsable-call-shape")
-		return
+	src := c.source()
+	if sc == nil {
+		var err error
+		sc, err = formula.ParseSourceCode([]byte(src))
+		if err != nil {
+			w.Skip("unparsable-call-shape")
+			return
+		}
 	}
 	r := formula.NewRunner()
 	r.SetThis(data)
@@ -437,7 +475,7 @@ var c11Bridge = core.Mon(c11, "bridge", func(w *core.W, c *BridgeCase) {
 	panicked, pv := core.Call(func() { v, rerr = r.Resolve(ctx, sc.Expression) })
 	desc := fmt.Sprintf("%s with signature %s", src, sigString(c.Sig))
 	if panicked {
-		w.Violation("bridge", "C11/escaped-panic", c, nil, fmt.Sprint(pv), desc)
+		w.Violation(mon, "C11/escaped-panic", c, nil, fmt.Sprint(pv), desc)
 		return
 	}
 	if len(c.Sig.Params) > 0 {
@@ -519,11 +557,11 @@ var c11Bridge = core.Mon(c11, "bridge", func(w *core.W, c *BridgeCase) {
 			w.Count("spread_rejects")
 		}
 		if len(log) != 0 {
-			w.Violation("bridge", "C11/called-despite-mismatch", c, "not called: "+why, fmt.Sprintf("%d invocation(s) with %v", len(log), log[0].Args), desc)
+			w.Violation(mon, "C11/called-despite-mismatch", c, "not called: "+why, fmt.Sprintf("%d invocation(s) with %v", len(log), log[0].Args), desc)
 			return
 		}
 		if rerr == nil {
-			w.Violation("bridge", "C11/mismatch-without-error", c, "an error: "+why, show(v), desc)
+			w.Violation(mon, "C11/mismatch-without-error", c, "an error: "+why, show(v), desc)
 		}
 		return
 	}
@@ -532,24 +570,24 @@ var c11Bridge = core.Mon(c11, "bridge", func(w *core.W, c *BridgeCase) {
 		w.Count("spread_calls")
 	}
 	if len(log) != 1 {
-		w.Violation("bridge", "C11/invocation-count", c, "exactly one invocation", fmt.Sprintf("%d invocations, err=%v", len(log), rerr), desc)
+		w.Violation(mon, "C11/invocation-count", c, "exactly one invocation", fmt.Sprintf("%d invocations, err=%v", len(log), rerr), desc)
 		return
 	}
 	inv := log[0]
 	if c.Sig.Ctx {
 		if inv.Ctx == nil || inv.Ctx != ctx || inv.Ctx.Value(ctxKey{}) != token {
-			w.Violation("bridge", "C11/context", c, "the caller's context", fmt.Sprint(inv.Ctx), desc)
+			w.Violation(mon, "C11/context", c, "the caller's context", fmt.Sprint(inv.Ctx), desc)
 			return
 		}
 	}
 	if len(inv.Args) != len(exps) {
-		w.Violation("bridge", "C11/received-count", c, fmt.Sprintf("%d arguments", len(exps)), fmt.Sprintf("%d: %v", len(inv.Args), inv.Args), desc)
+		w.Violation(mon, "C11/received-count", c, fmt.Sprintf("%d arguments", len(exps)), fmt.Sprintf("%d: %v", len(inv.Args), inv.Args), desc)
 		return
 	}
 	for i, e := range exps {
 		if !e.matches(inv.Args[i]) {
 			kind := c.Sig.Params[minInt(i, n-1)]
-			w.Violation("bridge", "C11/conversion:"+kind, c, e.String(), show(inv.Args[i]), fmt.Sprintf("argument %d of %s", i+1, desc))
+			w.Violation(mon, "C11/conversion:"+kind, c, e.String(), show(inv.Args[i]), fmt.Sprintf("argument %d of %s", i+1, desc))
 			return
 		}
 	}
@@ -557,23 +595,23 @@ var c11Bridge = core.Mon(c11, "bridge", func(w *core.W, c *BridgeCase) {
 	w.Count("order_checked")
 	for i, k := range order {
 		if int64(i) != k {
-			w.Violation("bridge", "C11/argument-order", c, "0,1,2,...", fmt.Sprint(order), desc)
+			w.Violation(mon, "C11/argument-order", c, "0,1,2,...", fmt.Sprint(order), desc)
 			return
 		}
 	}
 	if len(order) != len(c.Args) {
-		w.Violation("bridge", "C11/argument-evaluated-twice-or-never", c, len(c.Args), fmt.Sprint(order), desc)
+		w.Violation(mon, "C11/argument-evaluated-twice-or-never", c, len(c.Args), fmt.Sprint(order), desc)
 		return
 	}
 	if c.Sig.Fail {
 		w.Count("returned_errors")
 		if rerr == nil || !strings.Contains(rerr.Error(), "hostfn") {
-			w.Violation("bridge", "C11/returned-error", c, "an evaluation error naming hostfn", fmt.Sprint(show(v), rerr), desc)
+			w.Violation(mon, "C11/returned-error", c, "an evaluation error naming hostfn", fmt.Sprint(show(v), rerr), desc)
 		}
 		return
 	}
 	if rerr != nil {
-		w.Violation("bridge", "C11/unexpected-error", c, "a value", rerr.Error(), desc)
+		w.Violation(mon, "C11/unexpected-error", c, "a value", rerr.Error(), desc)
 		return
 	}
 	if want, ok := retValues[c.Sig.Ret]; ok {
@@ -582,16 +620,16 @@ var c11Bridge = core.Mon(c11, "bridge", func(w *core.W, c *BridgeCase) {
 		f, isF := v.(float64)
 		wf, _ := d.Rat().Float64()
 		if !isF || f != wf {
-			w.Violation("bridge", "C11/returned-number:"+c.Sig.Ret, c, want, show(v), "a returned Go "+c.Sig.Ret+" must become a formula number: "+desc)
+			w.Violation(mon, "C11/returned-number:"+c.Sig.Ret, c, want, show(v), "a returned Go "+c.Sig.Ret+" must become a formula number: "+desc)
 			return
 		}
 		data["hostfn"] = buildSig(c.Sig, &log)
 		v2, err2, _, _ := resolveIn(data, "typeof "+src)
 		if err2 != nil || v2 != "number" {
-			w.Violation("bridge", "C11/returned-number-kind:"+c.Sig.Ret, c, "number", fmt.Sprint(show(v2), err2), "typeof "+desc)
+			w.Violation(mon, "C11/returned-number-kind:"+c.Sig.Ret, c, "number", fmt.Sprint(show(v2), err2), "typeof "+desc)
 		}
 	}
-})
+}
 
 func minInt(a, b int) int {
 	if a < b {
@@ -768,6 +806,37 @@ func runC11(w *core.W) {
 		}
 		run(c)
 	}
+	// 2b. one parsed call site, two signatures of hostfn (a cache keyed by call site must not leak between evaluations)
+	for i, n := 0, w.Pick(20000, 300000); i < n; i++ {
+		a, b := randSig(r), randSig(r)
+		if i%3 == 0 { // same parameters, but variadic / context flipped
+			b = a
+			b.Params = append([]string{}, a.Params...)
+			switch r.Intn(3) {
+			case 0:
+				b.Ctx = !a.Ctx
+			case 1:
+				if len(b.Params) > 0 {
+					b.Variadic = !a.Variadic
+					if b.Variadic {
+						b.Params[len(b.Params)-1] = []string{"string", "int", "float64", "any"}[r.Intn(4)]
+					}
+				}
+			default:
+				b.Params = append(b.Params, "any")
+			}
+		}
+		c := &SharedTreeCase{SigA: a, SigB: b, Args: []ArgSpec{}}
+		na := len(a.Params) + r.Intn(3) - 1
+		for j := 0; j < na; j++ {
+			if len(a.Params) == 0 {
+				c.Args = append(c.Args, argPool[r.Intn(len(argPool))])
+				continue
+			}
+			c.Args = append(c.Args, fitting(r, a.Params[minInt(j, len(a.Params)-1)]))
+		}
+		c11Shared(w, c)
+	}
 	// 3. builtins
 	bi := 0
 	for name, params := range builtinArity {
@@ -811,8 +880,12 @@ func fitting(r *rand.Rand, kind string) ArgSpec {
 		return ArgSpec{K: "time"}
 	case "strs":
 		return ArgSpec{K: "arr", Elems: []ArgSpec{{K: "str", S: "a"}, {K: "str", S: "b"}}}
-	case "ints", "f64s":
+	case "ints", "f64s", "i32s":
 		return ArgSpec{K: "arr", Elems: []ArgSpec{num(), num()}}
+	case "i32ss":
+		return ArgSpec{K: "arr", Elems: []ArgSpec{{K: "arr", Elems: []ArgSpec{num()}}, {K: "arr", Elems: []ArgSpec{num(), num()}}}}
+	case "bytes":
+		return ArgSpec{K: "str", S: "bytes?"}
 	case "anys":
 		return ArgSpec{K: "arr", Elems: []ArgSpec{num(), {K: "str", S: "x"}, {K: "null"}}}
 	case "mapany", "mapint":
